@@ -105,7 +105,7 @@ class GcodeHandlers(object):
 
         # Compute the number of segments to produce based on the length of the arc
         arcLength = abs(angularTravel) * radius
-        numSegments = int(math.ceil(arcLength / MM_PER_ARC_SEGMENT))
+        numSegments = max(1, int(math.ceil(arcLength / MM_PER_ARC_SEGMENT)))
 
         angle = math.atan2(-j, -i)
         angularIncrement = angularTravel / numSegments
